@@ -13,8 +13,10 @@ import (
 	"os"
 	"os/exec"
 	"path/filepath"
+	"regexp"
 	"runtime"
 	"sort"
+	"strconv"
 	"strings"
 	"sync"
 	"syscall"
@@ -272,6 +274,16 @@ func run(id, tier, seed, replay string, shardsOverride int, keep bool) int {
 
 	ev, viols, known, notes := merge(id, tier, seed, cfg, parts, work)
 	viols = append(viols, crashViol...)
+
+	// ---- native fuzz campaigns (thorough tier): coverage-guided, oracle inside the target
+	if replay == "" && len(tc.Fuzz) > 0 {
+		fz, fviols, finc := runFuzz(id, tc.Fuzz, env, work)
+		ev["coverage"].(map[string]any)["fuzz"] = fz
+		viols = append(viols, fviols...)
+		if finc {
+			inconclusive = true
+		}
+	}
 	ev["wall_s"] = time.Since(t0).Seconds()
 	ev["violations"] = len(viols)
 	if replay == "" {
@@ -318,6 +330,63 @@ func run(id, tier, seed, replay string, shardsOverride int, keep bool) int {
 	fmt.Printf("OK property=%s tier=%s seed=%s evaluations=%v distinct_nontrivial=%v wall=%.1fs\n", id, tier, seed,
 		ev["coverage"].(map[string]any)["evaluations"], ev["coverage"].(map[string]any)["distinct_nontrivial"], time.Since(t0).Seconds())
 	return 0
+}
+
+var fuzzStat = regexp.MustCompile(`execs: (\d+) .*new interesting: (\d+) \(total: (\d+)\)`)
+
+// runFuzz runs `go test -fuzz` for every configured target, one after the
+// other (the fuzzer uses all cores). Go's fuzzer cannot be seeded: the saved
+// failing input is the reproducible unit. Targets write a replay envelope for
+// every input their oracle rejects into work/fuzz-violations.
+func runFuzz(id string, targets map[string]int, env []string, work string) (map[string]any, []harness.Violation, bool) {
+	out := map[string]any{}
+	var viols []harness.Violation
+	inconclusive := false
+	names := make([]string, 0, len(targets))
+	for n := range targets {
+		names = append(names, n)
+	}
+	sort.Strings(names)
+	pkg := "./checks/" + strings.ToLower(id)
+	for _, name := range names {
+		secs := targets[name]
+		vdir := filepath.Join(work, "fuzz-violations", name)
+		_ = os.RemoveAll(vdir)
+		fwork := filepath.Join(work, "fuzz-work")
+		_ = os.MkdirAll(fwork, 0o755)
+		cmd := exec.Command("go", "test", "-tags", "verif", "-vet=off", "-run", "^$", "-fuzz", "^"+name+"$", "-fuzztime", fmt.Sprintf("%ds", secs), pkg)
+		cmd.Dir = root()
+		cmd.Env = append(append([]string{}, env...), "VERIF_SHARD=0/1", "VERIF_WORK="+fwork, "VERIF_FUZZ_DIR="+vdir)
+		t0 := time.Now()
+		b, err := cmd.CombinedOutput()
+		_ = os.WriteFile(filepath.Join(work, "fuzz-"+name+".log"), b, 0o644)
+		st := map[string]any{"seconds": int(time.Since(t0).Seconds()), "budget_s": secs}
+		if ms := fuzzStat.FindAllSubmatch(b, -1); len(ms) > 0 {
+			m := ms[len(ms)-1]
+			st["execs"], _ = strconv.Atoi(string(m[1]))
+			st["new_interesting"], _ = strconv.Atoi(string(m[2]))
+			st["corpus"], _ = strconv.Atoi(string(m[3]))
+		}
+		files, _ := filepath.Glob(filepath.Join(vdir, "*.json"))
+		sort.Strings(files)
+		for _, f := range files {
+			jb, _ := os.ReadFile(f)
+			var e harness.Envelope
+			_ = json.Unmarshal(jb, &e)
+			viols = append(viols, harness.Violation{Sub: name, Msg: e.Note, Case: jb})
+		}
+		// the fuzzer leaves its crasher under the package's testdata; the
+		// envelope above is what we keep
+		_ = os.RemoveAll(filepath.Join(root(), "checks", strings.ToLower(id), "testdata", "fuzz", name))
+		st["failing_inputs"] = len(files)
+		if err != nil && len(files) == 0 {
+			fmt.Printf("INCONCLUSIVE fuzz target %s failed without a recorded case; see %s\n", name, filepath.Join(work, "fuzz-"+name+".log"))
+			tailLog(filepath.Join(work, "fuzz-"+name+".log"))
+			inconclusive = true
+		}
+		out[name] = st
+	}
+	return out, viols, inconclusive
 }
 
 func sanitize(s string) string {
